@@ -42,13 +42,16 @@ def add (c : Curve) : Pt → Pt → Pt
 
 def sub (c : Curve) (P Q : Pt) : Pt := add c P (neg c Q)
 
-def smul (c : Curve) (k : Nat) (P : Pt) : Pt :=
-  if h : k = 0 then none else
-    let half := smul c (k / 2) P
-    let dbl := add c half half
-    if k % 2 = 1 then add c dbl P else dbl
-termination_by k
-decreasing_by omega
+def smulAux (c : Curve) : Nat → Nat → Pt → Pt
+  | 0, _, _ => none
+  | fuel + 1, k, P =>
+    if k = 0 then none else
+      let half := smulAux c fuel (k / 2) P
+      let dbl := add c half half
+      if k % 2 = 1 then add c dbl P else dbl
+
+/-- Double-and-add scalar multiplication (structural in the bit length, kernel-evaluable). -/
+def smul (c : Curve) (k : Nat) (P : Pt) : Pt := smulAux c (k.log2 + 1) k P
 
 end Kyber.Weierstrass
 
